@@ -101,7 +101,9 @@ package scen
 // dual-clean (every peer answers), dual-findpeer (FindPeer only, target known
 // on both sides), dual-write-errors (below); the inbound (server) side is in
 // c15_server.go, the FindPeer merge over two independent hosts in
-// c15_split.go.
+// c15_split.go, GetValue under a caller context that ends in mid-search
+// (dual-getvalue-cut: rules getvalue-cut-lan, getvalue-cut-none) in
+// c15_getcut.go.
 //
 // dual-write-errors. The property quantifies the write clause over "every
 // combination of ... per-DHT results and errors" and over configurations: the
@@ -404,6 +406,16 @@ type c15Op struct {
 	ctx        context.Context // the caller's context (read at quiescent points only)
 	dsPending  map[string]bool // side -> a datastore fault is armed on that side's datastore at the call
 	ctxLiveEnd bool            // the caller's context was alive when the call had returned
+
+	// dual-getvalue-cut (c15_getcut.go)
+	cutAfter   int             // the caller's context ends after this many scheduler steps of the operation (-1: never)
+	cutUnit    string          // "" all steps count | "wan" | "lan": only that side's steps count
+	sideSteps  map[string]int  // side -> scheduler steps that released a call of that side
+	opSteps    int             // scheduler steps taken for this operation so far
+	cut        bool            // the caller's context ended while the call had not returned
+	cutHow     string          // "cancel" | "deadline"
+	cutPending map[string]bool // side -> that side's lookup had not returned at the quiescent point right before the context ended
+	cutUnclear bool            // the state at that point cannot be attributed to the sides: the call is not judged
 }
 
 type c15World struct {
@@ -415,18 +427,20 @@ type c15World struct {
 	cfgErr  map[string]string
 	dsArmed map[string]int
 	refused bool // some write met an injected failure on its routed side and reported an error
-	u       *simnet.Universe
-	pal     *c15Palette
-	host    *simhost.Host
-	d       *dual.DHT
-	snd     map[string]*simnet.Sender
-	ds      map[string]*simds.DS // one datastore per inner DHT
-	k       map[string]int
-	peers   map[peer.ID]*c15Peer
-	order   []*c15Peer // canonical order
-	t       *c15Peer
-	ops     []*c15Op
-	cl      opSet
+	// dual-getvalue-cut: "" | "lan" | "wan" - the side whose pending calls are answered first
+	prio  string
+	u     *simnet.Universe
+	pal   *c15Palette
+	host  *simhost.Host
+	d     *dual.DHT
+	snd   map[string]*simnet.Sender
+	ds    map[string]*simds.DS // one datastore per inner DHT
+	k     map[string]int
+	peers map[peer.ID]*c15Peer
+	order []*c15Peer // canonical order
+	t     *c15Peer
+	ops   []*c15Op
+	cl    opSet
 
 	selfAddrs []ma.Multiaddr
 	psStart   map[peer.ID]map[string]bool
@@ -658,6 +672,11 @@ func c15Build(s *sim.Sim, faulty bool, focus string) *c15World {
 	if focus == "findpeer" {
 		tKnownPct = 100
 	}
+	if focus == "getcut" {
+		// every dial is then attributable to one inner DHT (see c15_getcut.go)
+		tKnownPct = 0
+		w.prio = []string{"", c15L, c15W}[s.Draw("answer-first", 3)]
+	}
 	graph := func(grp []*c15Peer) {
 		for _, x := range grp {
 			for _, q := range grp {
@@ -700,6 +719,8 @@ func c15Build(s *sim.Sim, faulty bool, focus string) *c15World {
 		case "":
 		case "writeerr":
 			k = map[string]string{"provide": "provide", "putvalue": "putvalue", "getvalue": "provide", "findpeer": "putvalue"}[k]
+		case "getcut":
+			k = "getvalue"
 		default:
 			k = focus
 		}
@@ -709,7 +730,7 @@ func c15Build(s *sim.Sim, faulty bool, focus string) *c15World {
 		w.ops = append(w.ops, &c15Op{kind: "findprovs"})
 	}
 	for i, o := range w.ops {
-		o.idx, o.tag, o.announce = i, fmt.Sprintf("o%d", i), true
+		o.idx, o.tag, o.announce, o.cutAfter, o.sideSteps = i, fmt.Sprintf("o%d", i), true, -1, map[string]int{}
 		switch o.kind {
 		case "provide", "findprovs":
 			sum, err := mh.Sum([]byte(fmt.Sprintf("c15-content-%d-%d", useed, i)), mh.SHA2_256, -1)
@@ -731,6 +752,9 @@ func c15Build(s *sim.Sim, faulty bool, focus string) *c15World {
 			o.val = rankValue(5, time.Time{}, o.strKey)
 		case "findpeer":
 			o.wire = string(w.t.p.ID)
+		}
+		if focus == "getcut" {
+			w.drawCut(o)
 		}
 		switch o.kind {
 		case "getvalue":
@@ -796,6 +820,11 @@ func c15Build(s *sim.Sim, faulty bool, focus string) *c15World {
 	seedMode := func(l string) int { // 0,1 some; 2 none; 3 all
 		m := s.Draw(l, 4)
 		if focus == "findpeer" && m == 2 {
+			m = 3
+		}
+		if focus == "getcut" && m == 2 && l == "seed-wan" {
+			// (a WAN lookup that fails at once is what the other scenarios cover;
+			// an empty WAN population still gives an empty table)
 			m = 3
 		}
 		return m
@@ -1273,8 +1302,11 @@ func (w *c15World) runOp(o *c15Op) bool {
 			break
 		}
 		if s.Chance("tick", 1, 16) {
-			s.Sleep(time.Duration(1+s.Draw("tick-ms", 40)) * time.Millisecond)
+			w.sleepWatched(o, time.Duration(1+s.Draw("tick-ms", 40))*time.Millisecond)
 			s.Count("time_advance")
+		}
+		if w.cutDue(o) && w.cutCaller(o) {
+			continue
 		}
 		if o.deadline > 0 && !o.stalled && !o.op.Done && len(s.Parked()) > 0 && s.Chance("stall", 1, 5) {
 			// nobody answers until a drawn fraction of the caller's deadline has passed
@@ -1291,12 +1323,13 @@ func (w *c15World) runOp(o *c15Op) bool {
 			if idle > 20 {
 				break
 			}
-			s.Sleep(time.Second)
+			w.sleepWatched(o, time.Second)
 			continue
 		}
 		idle = 0
 		o.tConnPrev = w.connected(w.t.p.ID)
-		s.Choose("next", acts)
+		o.opSteps++
+		s.Choose("next", w.preferSide(o, acts))
 	}
 	defer func() {
 		o.cancel()
@@ -1312,6 +1345,10 @@ func (w *c15World) runOp(o *c15Op) bool {
 			return false
 		}
 		s.Violate("no-return", "%s did not return although nothing is parked and %d s of virtual time passed", o.kind, idle)
+		return false
+	}
+	if o.cut {
+		// dual-getvalue-cut: the run ends with the operation whose caller gave up
 		return false
 	}
 	return s.Steps <= s.MaxSteps
@@ -1603,8 +1640,23 @@ func (w *c15World) judgeGetValue(o *c15Op) {
 		}
 		return false
 	}
+	if o.cutUnclear {
+		s.Count("probe_cut_unclear_not_judged")
+		return
+	}
+	// A lookup succeeded iff it ran to its end and a valid record was delivered
+	// to it. dual-getvalue-cut: a lookup that had not returned when the caller's
+	// context ended was cut short - it did not succeed, whatever it had received
+	// by then (see c15_getcut.go).
+	cutW, cutL := o.cut && o.cutPending[c15W], o.cut && o.cutPending[c15L]
+	wanOK, lanOK := len(wv) > 0 && !cutW, len(lv) > 0 && !cutL
+	if o.cut {
+		w.cutProbes(o, len(wv) > 0, len(lv) > 0)
+	} else if o.cutAfter >= 0 {
+		s.Count("probe_cut_point_not_reached")
+	}
 	switch {
-	case len(wv) > 0:
+	case wanOK:
 		if o.op.Err != nil || !in(wv) {
 			s.Violate("getvalue-wan", "the WAN lookup received valid value(s) %q but GetValue returned %q, err=%v (LAN received %q)", wv, res, o.op.Err, lv)
 		}
@@ -1617,7 +1669,12 @@ func (w *c15World) judgeGetValue(o *c15Op) {
 		if len(lv) > 0 && !lanOpen && lsteps[len(lsteps)-1] < o.endStep {
 			s.Count("probe_getvalue_wan_wins_lan_finished_first")
 		}
-	case len(lv) > 0:
+	case lanOK && cutW:
+		if o.op.Err != nil || !in(lv) {
+			s.Violate("getvalue-cut-lan", "the caller's context ended (%s) while the WAN lookup had not returned (valid value(s) received by then: %q), so the WAN lookup did not succeed; the LAN lookup had finished before and received %q, but GetValue returned %q, err=%v",
+				o.cutHow, wv, lv, res, o.op.Err)
+		}
+	case lanOK:
 		if o.op.Err != nil || !in(lv) {
 			s.Violate("getvalue-lan", "the WAN lookup received no valid value, the LAN lookup received %q, but GetValue returned %q, err=%v", lv, res, o.op.Err)
 		}
@@ -1625,13 +1682,38 @@ func (w *c15World) judgeGetValue(o *c15Op) {
 		if winv > 0 {
 			s.Count("probe_getvalue_wan_invalid_only")
 		}
+	case cutW || cutL:
+		if o.op.Err == nil {
+			s.Violate("getvalue-cut-none", "the caller's context ended (%s) while the %s had not returned: cut short, not succeeded (valid values received by then: wan %q, lan %q); %s; neither lookup succeeded but GetValue returned %q without error",
+				o.cutHow, c15CutWho(cutW, cutL), wv, lv, c15CutOther(cutW, cutL), res)
+		}
 	default:
 		if o.op.Err == nil {
 			s.Violate("getvalue-none", "neither lookup received a valid value but GetValue returned %q without error", res)
 		}
 		s.Count("probe_getvalue_none")
 	}
-	s.State("getvalue wan=%v lan=%v err=%v", len(wv) > 0, len(lv) > 0, o.op.Err != nil)
+	s.State("getvalue wan=%v lan=%v err=%v cut=%v/%v", len(wv) > 0, len(lv) > 0, o.op.Err != nil, cutW, cutL)
+}
+
+func c15CutWho(cutW, cutL bool) string {
+	switch {
+	case cutW && cutL:
+		return "WAN and the LAN lookup"
+	case cutW:
+		return "WAN lookup"
+	}
+	return "LAN lookup"
+}
+
+func c15CutOther(cutW, cutL bool) string {
+	switch {
+	case cutW && cutL:
+		return "no lookup had finished"
+	case cutW:
+		return "the LAN lookup had finished before without a valid value"
+	}
+	return "the WAN lookup had finished before without a valid value"
 }
 
 func (w *c15World) judgeFindPeer(o *c15Op) {
